@@ -1,4 +1,10 @@
 import Tpp.Driver.Proto
+import Tpp.Driver.Values
+import Tpp.Driver.Canvas
+import Tpp.Driver.Input
+import Tpp.Driver.Markup
+import Tpp.Driver.Strings
+import Tpp.Driver.Screen
 /-! The model side of every protocol kind. -/
 namespace Tpp.Driver
 open Tpp
@@ -48,6 +54,8 @@ def runLine (line : String) : String :=
   | 'H' => runHigh rest
   | 'X' => runComponents rest
   | 'Y' => runGrey rest
-  | _ => "?kind"
+  | _ =>
+    (Values.run kind rest <|> Canvas.run kind rest <|> Input.run kind rest <|> Markup.run kind rest
+      <|> Strings.run kind rest <|> Screen.run kind rest).getD "?kind"
 
 end Tpp.Driver
